@@ -21,6 +21,9 @@ pub struct Case {
     pub retries: u8,
     pub plan: Vec<Fault>,
     pub st: FamState,
+    /// how a malformed outcome is realised: 0 the fixed hand-written reply, 1..=4 the valid reply cut short (only where `mangle_applies`)
+    #[serde(default)]
+    pub mangle: u8,
 }
 
 /// (entry, units, steps per unit)
@@ -100,8 +103,8 @@ impl Prop for C10 {
          handshake and data step, Quake 1/2/3, Unreal 2 info / rules / players, Minecraft Java, Bedrock and the three legacy variants, Mindustry) x retries r in 0..=3 x ALL \
          per-attempt outcome vectors in {valid, silent, send fails, malformed}^(r+2), over several server states: a fault-injecting wrapper around the valid reference \
          server applies the vector to the attempts of that unit. Oracle from the transport log and the wrapper's record: attempts == min(index of the first non-timeout \
-         outcome + 1, r+1); every re-sent first request is byte-identical; first valid attempt => result equals the fault-free result; malformed => an error that is not \
-         receive/send class and no further attempt; all r+1 timeouts => PacketReceive / PacketSend. non-trivial = the vector contains a fault that took effect; distinct = \
+         outcome + 1, r+1); every re-sent first request is byte-identical; first valid attempt => result equals the fault-free result; malformed (a fixed hand-written reply or, for the single-reply protocols without a challenge step, the valid reply cut to half / minus one byte / five bytes / one byte) => an error that is not \
+         receive/send class (or, for a cut reply, success) and no further attempt; all r+1 timeouts => PacketReceive / PacketSend. non-trivial = the vector contains a fault that took effect; distinct = \
          digest of the case"
             .into()
     }
@@ -118,8 +121,8 @@ impl Prop for C10 {
 
     fn strategy(&self, _tier: Tier) -> BoxedStrategy<Case> {
         let t = targets();
-        (0 .. t.len(), any::<prop::sample::Index>(), any::<prop::sample::Index>(), 0u8 .. 4, prop::collection::vec(prop::sample::select(FAULTS.to_vec()), 0 .. 6), any::<u64>())
-            .prop_map(move |(ti, ui, si, retries, plan, idx)| {
+        (0 .. t.len(), any::<prop::sample::Index>(), any::<prop::sample::Index>(), 0u8 .. 4, prop::collection::vec(prop::sample::select(FAULTS.to_vec()), 0 .. 6), any::<u64>(), 0u8 .. 5)
+            .prop_map(move |(ti, ui, si, retries, plan, idx, mangle)| {
                 let (entry, units, steps) = &t[ti];
                 Case {
                     entry: entry.clone(),
@@ -128,13 +131,14 @@ impl Prop for C10 {
                     retries,
                     plan,
                     st: state_for_entry(entry, idx % 512),
+                    mangle: if crate::models::fault::mangle_applies(entry.family()) { mangle } else { 0 },
                 }
             })
             .boxed()
     }
 
     fn enumerated<'a>(&'a self, tier: Tier, shard: usize, nshards: usize) -> Box<dyn Iterator<Item = Case> + 'a> {
-        let nstates = tier.pick(3u64, 30);
+        let nstates = tier.pick(5u64, 30);
         let mut combos = Vec::new();
         for (entry, units, steps) in targets() {
             for u in &units {
@@ -149,6 +153,8 @@ impl Prop for C10 {
         }
         let it = combos.into_iter().enumerate().filter(move |(i, _)| i % nshards == shard).flat_map(|(_, (entry, unit, step, retries, k))| {
             let st = state_for_entry(&entry, k);
+            // the realisation of "malformed" rotates with the state index where cut replies apply (0 = the fixed reply)
+            let mangle = if crate::models::fault::mangle_applies(entry.family()) { (k % 5) as u8 } else { 0 };
             plans(retries as usize + 2).into_iter().map(move |plan| {
                 Case {
                     entry: entry.clone(),
@@ -157,6 +163,7 @@ impl Prop for C10 {
                     retries,
                     plan,
                     st: st.clone(),
+                    mangle,
                 }
             })
         });
@@ -164,7 +171,7 @@ impl Prop for C10 {
     }
 
     fn exhaustive_subspaces(&self, tier: Tier) -> Vec<String> {
-        vec![format!("all outcome vectors {{valid, silent, send-fails, malformed}}^(r+2) for r in 0..=3, for each of 18 entry points x their units x fault steps x {} server states", tier.pick(3, 30))]
+        vec![format!("all outcome vectors {{valid, silent, send-fails, malformed}}^(r+2) for r in 0..=3, for each of 18 entry points x their units x fault steps x {} server states (the realisation of 'malformed' rotates over the fixed reply and four cuts of the valid reply)", tier.pick(5, 30))]
     }
 
     fn run(&self, case: &Case) -> Outcome {
@@ -183,9 +190,14 @@ impl Prop for C10 {
                 return o;
             }
         };
-        let (faulty, flog) = Faulty::new(case.st.responder(), fam, case.unit, case.step, case.plan.clone());
+        let (mut faulty, flog) = Faulty::new(case.st.responder(), fam, case.unit, case.step, case.plan.clone());
+        faulty.mangle = case.mangle;
+        if case.mangle != 0 { o.label(format!("malformed=valid reply cut short ({})", case.mangle)); }
         let run = run_scripted(Box::new(faulty), || case.entry.call_json(&ip, 27015, r));
         let flog = flog.borrow().clone();
+        if std::env::var("GDV_TRACE").is_ok() {
+            eprintln!("C10 trace: result {} attempts {:?}\n{}", run.ended.kind_str(), flog.attempts, render_log(&run.log).join("\n"));
+        }
         // effective outcome of every attempt that was made
         let eff: Vec<Fault> = flog.attempts.iter().map(|(f, hit)| if *hit { *f } else { Fault::Valid }).collect();
         o.nontrivial = eff.iter().any(|f| *f != Fault::Valid);
@@ -234,6 +246,8 @@ impl Prop for C10 {
             Some(Fault::Malformed) => {
                 match &run.ended {
                     Ended::Err(k) if *k != GDErrorKind::PacketReceive && *k != GDErrorKind::PacketSend => {}
+                    // a valid reply cut short may still be acceptable to the parser (e.g. only a trailing byte is missing)
+                    Ended::Ok(_) if case.mangle != 0 => {}
                     other => {
                         o.fail(sig(&format!("malformed reply must fail with a parse-class error|{}", other.kind_str())), detail(json!({})));
                     }
